@@ -180,6 +180,7 @@ type regCall struct {
 }
 
 func runRegSchedule(dir string, ops []regOp, cw *CaseWriter, class string) {
+	traceReset()
 	w := newRegWorld(dir, true)
 	calls := map[int]*regCall{}
 	var sched, outcomes SxList
@@ -256,6 +257,7 @@ func runRegSchedule(dir string, ops []regOp, cw *CaseWriter, class string) {
 	cw.Add("conc_register", L(L(), sched), L(final, outcomes), class, true)
 	w.checkClosed(rep(), "schedule "+desc)
 	_ = w.store.Close(context.Background())
+	emitTrace(cw, "regsched")
 }
 
 func regSequences(maxLen int) [][]regOp {
@@ -347,10 +349,11 @@ func scenarioRegSched(out string, maxLen int, cw *CaseWriter) string {
 
 // ---- randomised multi-path registration ---------------------------------------------
 
-func scenarioRegStress(out string, seed int64, rounds int) string {
+func scenarioRegStress(out string, seed int64, rounds int, cw *CaseWriter) string {
 	dir := filepath.Join(out, "regstress") + "/"
 	samples, calls := 0, 0
 	for round := 0; round < rounds; round++ {
+		traceReset()
 		w := newRegWorld(dir, false)
 		r := rand.New(rand.NewSource(seed*131 + int64(round)))
 		rep := map[string]any{"how": "harness conc (scenario regstress)", "seed": seed, "round": round}
@@ -432,6 +435,7 @@ func scenarioRegStress(out string, seed int64, rounds int) string {
 		}
 		w.checkClosed(rep, "regstress after quiescence")
 		_ = w.store.Close(context.Background())
+		emitTrace(cw, "regstress")
 		calls += int(ncalls.Load())
 	}
 	return fmt.Sprintf("%d rounds, %d Register/Unregister calls over 4 paths, %d samples of the slice", rounds, calls, samples)
